@@ -1,25 +1,14 @@
+\* The model WITHOUT the exemptions of the known findings KF-C17-1/2 (F4): TLC
+\* must refute CInv_Refusal (AsmSyntaxError for a small negative integer).
 SPECIFICATION CSpec
 CONSTANTS
-  GenAbis = {"x64elf", "x64pe", "ia32pe", "arm64", "mips32"}
+  GenAbis = {"arm64"}
   Wide = FALSE
   ScratchVals = {0}
-  ArgCounts = {0, 1, 2, 4, 7, 9}
+  ArgCounts = {0, 1}
+  SingleCounts = {1}
   RotStep = 5
   Emit = FALSE
   Strict = TRUE
-INVARIANT CInv_TypeOK
 INVARIANT CInv_Refusal
-INVARIANT CInv_ArgsAtCall
-INVARIANT CInv_ShadowReserved
-INVARIANT CInv_AlignedAtCall
-INVARIANT CInv_OneCall
-INVARIANT CInv_BodyStackNeutral
-INVARIANT CInv_SpRestored
-INVARIANT CInv_NoWriteAtOrAboveOriginalSp
-INVARIANT CInv_NoRedZoneWriteIfLeaf
-INVARIANT CInv_ReadsOnlyOwnSlots
-INVARIANT CInv_NoCollateral
-INVARIANT CInv_FlagsRestoredIfDeclared
-INVARIANT CInv_ReportedAdjustment
-INVARIANT CInv_Progress
 CHECK_DEADLOCK FALSE
